@@ -19,3 +19,4 @@ import Tumfl.Props.C04Faithful
 #print axioms Tumfl.Props.C04_dedup
 #print axioms Tumfl.Props.C04_faithful_example
 #print axioms Tumfl.Props.C04_spec_strict
+#print axioms Tumfl.Props.C12_nothing_left
